@@ -164,6 +164,14 @@ def run(prog, rep, tier):
               "super().sample(n) validates n before anything else", "n is not validated first")
     loops = sorted([(k, v) for k, v in S4.loopinfo.items() if v["func"] == f4.qname], key=lambda kv: kv[0][1])
     if len(loops) != 2:
+        # the environment loop written as a comprehension (around an extracted per-environment helper): read it as the loop it is
+        S4b = Sym(prog)
+        S4b.desugar = "all"
+        s4b, _ = run_function(S4b, f4)
+        loops_b = sorted([(k, v) for k, v in S4b.loopinfo.items() if v["func"] == f4.qname], key=lambda kv: kv[0][1])
+        if len(loops_b) == 2:
+            S4, s4, loops = S4b, s4b, loops_b
+    if len(loops) != 2:
         # several node loops (e.g. sources first, the others afterwards): at least the *order* of generation can be judged - every
         # loop over nodes must run along self._ordering or an order-keeping selection of it; a set difference / sort / unique on the
         # way (np.setdiff1d returns sorted values) generates children before their parents
